@@ -93,22 +93,111 @@ func callString(index, amount uint64, assetID []byte, vmVersion uint64, code []b
 		index, amount, assetID, vmVersion, code, hexList(state), expansion)
 }
 
-// implContext builds the protocol/vm context from already laid-out buffers.
-func implContext(c *vmCase, code []byte, args, state [][]byte, calls *[]string) *vm.Context {
+// instance is one concrete memory layout of a case: the buffers handed to the VM
+// and what the caller can see of them afterwards.
+type instance struct {
+	code        []byte
+	args, state [][]byte
+	entryID     []byte
+	assetID     *[]byte
+	outputID    *[]byte
+	sigHash     []byte // nil = no TxSigHash function; the function returns this one buffer (a cache, as in validation)
+	extra       func() []region
+}
+
+// region is a named caller-visible byte range (full capacity), copied.
+type region struct {
+	name string
+	b    []byte
+}
+
+func exact(b []byte) []byte { // independent buffer, no spare capacity
+	out := make([]byte, len(b))
+	copy(out, b)
+	return out[:len(b):len(b)]
+}
+
+func fullCopy(name string, b []byte) region {
+	return region{name: name, b: append([]byte{}, b[:cap(b)]...)}
+}
+
+// fillContextFields gives the instance its own context-field buffers.
+func (in *instance) fillContextFields(c *vmCase) {
 	s := c.Ctx
-	ctx := &vm.Context{VMVersion: s.VMVersion, Code: code, Arguments: args, StateData: state,
-		EntryID: unhex(s.EntryID), TxVersion: s.TxVersion, BlockHeight: s.BlockHeight, Amount: s.Amount, DestPos: s.DestPos}
+	in.entryID = exact(unhex(s.EntryID))
 	if s.AssetID != nil {
-		b := unhex(*s.AssetID)
-		ctx.AssetID = &b
+		b := exact(unhex(*s.AssetID))
+		in.assetID = &b
 	}
 	if s.OutputID != nil {
-		b := unhex(*s.OutputID)
-		ctx.SpentOutputID = &b
+		b := exact(unhex(*s.OutputID))
+		in.outputID = &b
 	}
 	if s.SigHash != nil {
-		b := unhex(*s.SigHash)
-		ctx.TxSigHash = func() []byte { return b }
+		in.sigHash = exact(unhex(*s.SigHash))
+	}
+}
+
+// freshInstance: every item an independent buffer of exact capacity.
+func freshInstance(c *vmCase) *instance {
+	in := &instance{code: exact(unhex(c.Prog))}
+	for _, a := range unhexList(c.Args) {
+		in.args = append(in.args, exact(a))
+	}
+	for _, a := range unhexList(c.State) {
+		in.state = append(in.state, exact(a))
+	}
+	in.fillContextFields(c)
+	return in
+}
+
+// visible lists everything the caller can look at after the run.
+func (in *instance) visible() []region {
+	var out []region
+	if in.extra != nil {
+		out = append(out, in.extra()...)
+	} else {
+		out = append(out, fullCopy("program", in.code))
+		for i, a := range in.args {
+			out = append(out, fullCopy(fmt.Sprintf("argument %d", i), a))
+		}
+		for i, a := range in.state {
+			out = append(out, fullCopy(fmt.Sprintf("state item %d", i), a))
+		}
+	}
+	out = append(out, fullCopy("entry id", in.entryID))
+	if in.assetID != nil {
+		out = append(out, fullCopy("asset id", *in.assetID))
+	}
+	if in.outputID != nil {
+		out = append(out, fullCopy("spent output id", *in.outputID))
+	}
+	if in.sigHash != nil {
+		out = append(out, fullCopy("cached tx signature hash", in.sigHash))
+	}
+	return out
+}
+
+func regionsDiff(a, b []region) string {
+	if len(a) != len(b) {
+		return fmt.Sprintf("%d vs %d regions", len(a), len(b))
+	}
+	for i := range a {
+		if !bytes.Equal(a[i].b, b[i].b) {
+			return fmt.Sprintf("%s: %x vs %x", a[i].name, a[i].b, b[i].b)
+		}
+	}
+	return ""
+}
+
+// impl builds the protocol/vm context over the instance's buffers.
+func (in *instance) impl(c *vmCase, calls *[]string) *vm.Context {
+	s := c.Ctx
+	ctx := &vm.Context{VMVersion: s.VMVersion, Code: in.code, Arguments: in.args, StateData: in.state,
+		EntryID: in.entryID, TxVersion: s.TxVersion, BlockHeight: s.BlockHeight, Amount: s.Amount, DestPos: s.DestPos,
+		AssetID: in.assetID, SpentOutputID: in.outputID}
+	if in.sigHash != nil {
+		ctx.TxSigHash = func() []byte { return in.sigHash }
 	}
 	switch s.CheckOutput {
 	case 1:
@@ -129,21 +218,15 @@ func implContext(c *vmCase, code []byte, args, state [][]byte, calls *[]string) 
 	return ctx
 }
 
-func refContext(c *vmCase, calls *[]string) *refvm.Context {
+// ref builds the reference context over the instance's buffers (the reference
+// copies them unless it runs in its Alias mode).
+func (in *instance) ref(c *vmCase, calls *[]string) *refvm.Context {
 	s := c.Ctx
-	ctx := &refvm.Context{VMVersion: s.VMVersion, Code: unhex(c.Prog), Arguments: unhexList(c.Args), StateData: unhexList(c.State),
-		EntryID: unhex(s.EntryID), TxVersion: s.TxVersion, BlockHeight: s.BlockHeight, Amount: s.Amount, DestPos: s.DestPos}
-	if s.AssetID != nil {
-		b := unhex(*s.AssetID)
-		ctx.AssetID = &b
-	}
-	if s.OutputID != nil {
-		b := unhex(*s.OutputID)
-		ctx.SpentOutputID = &b
-	}
-	if s.SigHash != nil {
-		b := unhex(*s.SigHash)
-		ctx.TxSigHash = func() []byte { return b }
+	ctx := &refvm.Context{VMVersion: s.VMVersion, Code: in.code, Arguments: in.args, StateData: in.state,
+		EntryID: in.entryID, TxVersion: s.TxVersion, BlockHeight: s.BlockHeight, Amount: s.Amount, DestPos: s.DestPos,
+		AssetID: in.assetID, SpentOutputID: in.outputID}
+	if in.sigHash != nil {
+		ctx.TxSigHash = func() []byte { return in.sigHash }
 	}
 	switch s.CheckOutput {
 	case 1:
@@ -192,6 +275,7 @@ type outcome struct {
 	traceLines int
 	instrs     int  // instructions started
 	capped     bool // the trace was too large to keep entirely
+	poisoned   bool // the package-level "true" value of protocol/vm did not read 01 after the run (restored)
 	gasLeft    int64
 	err        error
 	class      refvm.Class // "" when err == nil
@@ -207,6 +291,13 @@ func runImpl(ctx *vm.Context, gas int64, calls *[]string) outcome {
 	gasLeft, err := vm.Verify(ctx, gas)
 	vm.TraceOut = nil
 	o := outcome{gasLeft: gasLeft, err: err, class: classOf(err), traceLines: w.lines, instrs: w.instrs, capped: w.capped}
+	// every boolean "true" the VM pushes is one shared package-level slice; a
+	// program can overwrite it (CAT after 0 LEFT).  Put it back so that the next
+	// case starts from a sane VM, and remember that it happened.
+	if tb := vm.BoolBytes(true); len(tb) == 1 && tb[0] != 1 {
+		o.poisoned = true
+		tb[0] = 1
+	}
 	txt := w.buf.String()
 	if txt != "" {
 		o.trace = strings.Split(strings.TrimSuffix(txt, "\n"), "\n")
@@ -220,8 +311,7 @@ func runImpl(ctx *vm.Context, gas int64, calls *[]string) outcome {
 // runImplFresh runs the case with every buffer independent (exact capacity).
 func runImplFresh(c *vmCase) outcome {
 	var calls []string
-	ctx := implContext(c, unhex(c.Prog), unhexList(c.Args), unhexList(c.State), &calls)
-	return runImpl(ctx, c.Gas, &calls)
+	return runImpl(freshInstance(c).impl(c, &calls), c.Gas, &calls)
 }
 
 func classOf(err error) refvm.Class {
@@ -278,12 +368,12 @@ func firstLine(s string) string {
 // expansion-reserved rule); set ChildResetsExpansion to model what protocol/vm does.
 var refOpts = refvm.Options{}
 
-// runRef runs the reference model.
+// runRef runs the reference model with value semantics on the case's byte values.
 func runRef(c *vmCase, opt refvm.Options) (*refvm.Result, []string) {
 	var calls []string
-	ctx := refContext(c, &calls)
-	opt.ChildResetsExpansion = refOpts.ChildResetsExpansion
-	res := refvm.Run(ctx, c.Gas, opt)
+	opt.ChildResetsExpansion = opt.ChildResetsExpansion || refOpts.ChildResetsExpansion
+	opt.Alias = false
+	res := refvm.Run(freshInstance(c).ref(c, &calls), c.Gas, opt)
 	return res, calls
 }
 
@@ -376,7 +466,7 @@ func diffRef(o outcome, res *refvm.Result, refCalls []string) error {
 	if !res.OK {
 		admissible := false
 		for _, f := range res.Faults {
-			if f == o.class {
+			if f == o.class || (f == refvm.Panic && classPrefix(o.class) == refvm.Panic) {
 				admissible = true
 			}
 		}
@@ -428,6 +518,162 @@ func traceContext(got, exp []string, at int) string {
 	return b.String()
 }
 
+// ---------------------------------------------------------------------------
+// attribution of a disagreement to the known divergences of protocol/vm
+//
+// A run that disagrees with the reference (or changes caller-visible bytes) is
+// attributed to a known divergence only if (a) the reference annotated the
+// feature on the run and (b) the implementation's behaviour is reproduced
+// exactly - trace, outcome, gas, callback arguments and the final content of
+// every caller-visible buffer - by the reference switched to model precisely
+// that divergence and nothing else.
+
+const (
+	featWide64   = "wide64"   // PICK/ROLL/CHECKOUTPUT operand that does not fit 64 bits -> Options.Truncate64
+	featChildExp = "childexp" // expansion opcode / CHECKOUTPUT in a child frame under tx version 1 -> Options.ChildResetsExpansion
+	featAlias    = "alias"    // CAT/CATPUSHDATA on an item whose bytes are shared -> Options.Alias
+)
+
+var allFeatures = []string{featWide64, featChildExp, featAlias}
+
+func annotate(res *refvm.Result, into map[string]bool) {
+	for _, st := range res.Steps {
+		if st.Wide64 {
+			into[featWide64] = true
+		}
+		if st.ChildExpansion {
+			into[featChildExp] = true
+		}
+		if st.AliasedSplice && (st.Op == refvm.OpCat || st.Op == refvm.OpCatPushdata) {
+			into[featAlias] = true
+		}
+	}
+}
+
+// subsets of the present features, smallest first.
+func featureSubsets(present map[string]bool) [][]string {
+	var fs []string
+	for _, f := range allFeatures {
+		if present[f] {
+			fs = append(fs, f)
+		}
+	}
+	var out [][]string
+	for size := 1; size <= len(fs); size++ {
+		for mask := 1; mask < 1<<len(fs); mask++ {
+			var sub []string
+			for i, f := range fs {
+				if mask&(1<<i) != 0 {
+					sub = append(sub, f)
+				}
+			}
+			if len(sub) == size {
+				out = append(out, sub)
+			}
+		}
+	}
+	return out
+}
+
+type verdict struct {
+	clean     bool     // agrees with the intended semantics and changed nothing
+	explained []string // features whose model reproduces the run exactly (when !clean)
+	err       error    // neither
+}
+
+// judgeInstance runs the implementation on a layout built by build() and judges it.
+func judgeInstance(c *vmCase, build func() (*instance, error), res0 *refvm.Result, refCalls0 []string) (outcome, verdict) {
+	in, err := build()
+	if err != nil {
+		return outcome{}, verdict{err: fmt.Errorf("HARNESS: cannot build the layout: %v", err)}
+	}
+	before := in.visible()
+	var calls []string
+	o := runImpl(in.impl(c, &calls), c.Gas, &calls)
+	after := in.visible()
+	var first error
+	if d := regionsDiff(before, after); d != "" {
+		first = fmt.Errorf("caller-visible bytes changed during vm.Verify: %s", d)
+	}
+	if o.poisoned && first == nil {
+		first = fmt.Errorf("the VM's shared \"true\" value was overwritten during vm.Verify (every later boolean result of the process is affected)")
+	}
+	if err := diffRef(o, res0, refCalls0); err != nil {
+		first = err
+	}
+	if first == nil {
+		return o, verdict{clean: true}
+	}
+	changed := regionsDiff(before, after) != ""
+	present := map[string]bool{}
+	annotate(res0, present)
+	tried := map[string]bool{}
+	for round := 0; round < 3 && len(present) > 0; round++ {
+		var fullAlt *refvm.Result
+		for _, sub := range featureSubsets(present) {
+			key := strings.Join(sub, "+")
+			if tried[key] {
+				continue
+			}
+			tried[key] = true
+			opt := refvm.Options{ChildResetsExpansion: refOpts.ChildResetsExpansion, MaxWork: 4000000}
+			alias := false
+			for _, f := range sub {
+				switch f {
+				case featWide64:
+					opt.Truncate64 = true
+				case featChildExp:
+					opt.ChildResetsExpansion = true
+				case featAlias:
+					opt.Alias, alias = true, true
+				}
+			}
+			twin, err := build()
+			if err != nil {
+				return o, verdict{err: fmt.Errorf("HARNESS: cannot build the layout: %v", err)}
+			}
+			var altCalls []string
+			alt := refvm.Run(twin.ref(c, &altCalls), c.Gas, opt)
+			fullAlt = alt
+			ok := diffRef(o, alt, altCalls) == nil
+			if alias {
+				ok = ok && regionsDiff(after, twin.visible()) == "" && alt.TruePoisoned == o.poisoned
+			} else {
+				ok = ok && !changed && !o.poisoned
+			}
+			if ok && !alt.Truncated {
+				return o, verdict{explained: sub}
+			}
+		}
+		// the modelled path may reveal further features (e.g. a wide operand only reached after the child frame behaved differently)
+		n := len(present)
+		if fullAlt != nil {
+			annotate(fullAlt, present)
+		}
+		if len(present) == n {
+			break
+		}
+	}
+	var fs []string
+	for _, f := range allFeatures {
+		if present[f] {
+			fs = append(fs, f)
+		}
+	}
+	return o, verdict{err: fmt.Errorf("%v\n  (not reproduced by any model of the known divergences; features annotated on this run: %v)", first, fs)}
+}
+
+func freshBuilder(c *vmCase) func() (*instance, error) {
+	return func() (*instance, error) { return freshInstance(c), nil }
+}
+
+func classPrefix(c refvm.Class) refvm.Class {
+	if i := strings.Index(string(c), ": "); i > 0 {
+		return c[:i]
+	}
+	return c
+}
+
 // skipTokens: classes of already-found divergences excluded from judgement while
 // searching for further root causes (working aid; the default excludes nothing).
 func skipTokens(env string) map[string]bool {
@@ -455,10 +701,7 @@ func skipped(skip map[string]bool, c *vmCase, res *refvm.Result) string {
 		if skip["wide64pr"] && st.Wide64 && st.Op != refvm.OpCheckOutput {
 			return "wide64pr"
 		}
-		if skip["childexp"] && st.Expansion && st.Depth > 0 && c.Ctx.TxVersion != nil && *c.Ctx.TxVersion == 1 {
-			return "childexp"
-		}
-		if skip["childexp"] && st.Op == refvm.OpCheckOutput && st.Depth > 0 && c.Ctx.TxVersion != nil && *c.Ctx.TxVersion == 1 {
+		if skip["childexp"] && st.ChildExpansion {
 			return "childexp"
 		}
 		if skip["alias"] && st.AliasedSplice && (st.Op == refvm.OpCat || st.Op == refvm.OpCatPushdata) {
